@@ -498,6 +498,41 @@ func sinksMain(args []string) {
 		}
 		st.hit("concurrent-rounds")
 	}
+	// ChannelSink when both arms are ready at once (room in the channel AND the timeout over / the context
+	// done already): either outcome is fine, never both, never neither
+	for r := 0; r < 200; r++ {
+		ch := make(chan *eventlogger.Event, 1)
+		cs, _ := channel.NewChannelSink(ch, time.Nanosecond)
+		cctx := ctx
+		if r%2 == 1 {
+			c2, cancel := context.WithCancel(ctx)
+			cancel()
+			cctx = c2
+			cs, _ = channel.NewChannelSink(ch, time.Second)
+		}
+		time.Sleep(time.Microsecond)
+		ev := &eventlogger.Event{Type: "t"}
+		_, err := cs.Process(cctx, ev)
+		var got *eventlogger.Event
+		select {
+		case got = <-ch:
+		default:
+		}
+		st.Ops++
+		if err != nil && got != nil {
+			oracle("C13 ChannelSink (room in the channel, %s): Process reported %q AND the event was handed to the channel: both", map[bool]string{false: "its timeout over on entry", true: "the context done on entry"}[r%2 == 1], err)
+			break
+		}
+		if err == nil && got != ev {
+			oracle("C13 ChannelSink reported success but the channel holds %v: neither", got)
+			break
+		}
+		if err == nil {
+			st.hit("channel:both-ready:delivered")
+		} else {
+			st.hit("channel:both-ready:error")
+		}
+	}
 	o.close()
 	st.write(*out)
 	if len(st.Oracle) > 0 {
